@@ -13,7 +13,7 @@ import (
 
 var Driver = core.Driver{ID: "C13", Level: "model_checking", Run: run, Replay: replay, SelfTest: selfTest}
 
-const runeConsts = " RuneMax = 1114111\n HoleLo = 55296\n HoleHi = 57343\n Repl = 65533\n TU_FROM_START = TRUE\n NOTDEF_OWN = TRUE\n"
+const runeConsts = " RuneMax = 1114111\n HoleLo = 55296\n HoleHi = 57343\n Repl = 65533\n TU_FROM_START = TRUE\n NOTDEF_OWN = TRUE\n STACK = 500\n CHUNK_STACK = TRUE\n"
 
 // single-worker TLC runs: many of them run side by side, so keep each JVM's helper threads few
 var smallJVM = map[string]string{"JAVA_TOOL_OPTIONS": "-XX:ParallelGCThreads=2 -XX:CICompilerCount=2"}
@@ -124,11 +124,7 @@ func (v *verdicts) report(ctx *core.Ctx) {
 }
 
 func replayCaseOf(r *record) *conCase {
-	c := &conCase{Kind: r.Kind, CSR: r.CSR, Layers: r.Layers, File: r.File, Opt: r.Opt, Origin: r.Origin}
-	for _, p := range r.Probes {
-		c.Probes = append(c.Probes, p.C)
-	}
-	return c
+	return &conCase{Kind: r.Kind, CSR: r.CSR, Layers: r.Layers, File: r.File, Opt: r.Opt, Origin: r.Origin, Probes: r.ProbeCodes}
 }
 
 // judge sends records to TLC and files the rejected ones.  suspects[i] is the
@@ -446,15 +442,21 @@ func lens(rs []rng) string {
 	return strings.Join(ls, "+")
 }
 
+// errClass: the call that failed and the kind of error ("Extract: stackoverflow")
 func errClass(s string) string {
-	if i := strings.IndexAny(s, ":"); i > 0 {
-		s = s[:i]
+	parts := strings.SplitN(s, ":", 3)
+	if len(parts) > 2 {
+		parts = parts[:2]
 	}
-	w := strings.Fields(s)
-	if len(w) > 4 {
-		w = w[:4]
+	var ws []string
+	for _, p := range parts {
+		w := strings.Fields(p)
+		if len(w) > 3 {
+			w = w[:3]
+		}
+		ws = append(ws, strings.Join(w, "-"))
 	}
-	return strings.Join(w, "-")
+	return strings.Join(ws, "/")
 }
 
 func classify(r *record) (k, what string) {
